@@ -306,6 +306,13 @@ def _spurious(ctx, cls, op, reject, ranges, combos, w, ent, type_checks=False):
                                     l2, h2 = interval_of(bp.st.facts, t[2])
                                     if h2 < 0 or l2 > 2:
                                         justified = True
+        if not justified and op == "subscribe":
+            # the same per-topic test when the topic list is a display of known length (the loop is then walked entry by entry)
+            for t, v in facts.items():
+                if isinstance(t, tuple) and t[0] == "cmp" and is_const(t[3]) and isinstance(t[3][1], int):
+                    l2, h2 = interval_of(facts, t[2])
+                    if h2 < 0 or l2 > 2:
+                        justified = True
         rs = [e for e in evs if e.kind in ("RAISE", "UNDEFINED")]
         loc = where(rs[-1]) if rs else w
         ctx.ob("G-SPURIOUS", "%s.%s rejection (%s) is for a stated reason" % (cls_short(cls.qual), op, (c or "?").split(".")[-1]),
